@@ -282,7 +282,7 @@ def build_recording(tier):
             f.write(open(prec).read())
     # C13: repeated and re-scheduled runs on the accepted multi-controller cases
     multi = os.path.join(sc, "multi.cases")
-    ids, twins, spreads = [], [], []
+    ids, twins, spreads, dups = [], [], [], []
     for line in open(rec):
         r_ = json.loads(line)
         m = r_["runs"].get("main")
@@ -294,7 +294,10 @@ def build_recording(tier):
         files_of = collections.defaultdict(set)
         for m_ in r_["case"]["methods"]:
             files_of[m_["ctrl"]].add(m_["file"])
-        if len(set(names)) < len(names) and imported:
+        secs = [s_ for x_ in r_["case"]["ctrls"] + r_["case"]["methods"] for s_ in x_.get("sec") or []]
+        if any(len(set(s_.get("scopes") or [])) < len(s_.get("scopes") or []) for s_ in secs):
+            dups.append(r_["id"])       # a scope listed twice in one @Security: whatever de-duplicates through a set loses the written order
+        elif len(set(names)) < len(names) and imported:
             twins.append(r_["id"])      # controllers sharing a struct name across packages, with imported types: ordering by name alone is ambiguous
         elif any(len(v_) >= 2 for v_ in files_of.values()):
             spreads.append(r_["id"])    # a controller whose methods live in several files: the order in which files are met orders its handlers
@@ -303,10 +306,12 @@ def build_recording(tier):
     rng.shuffle(ids)
     rng.shuffle(twins)
     rng.shuffle(spreads)
+    rng.shuffle(dups)
     n13 = 120 if thorough else 12
     twins = twins[:n13 // 3]
     spreads = spreads[:n13 // 3]
-    ids = set(twins + spreads + ids[:n13 - len(twins) - len(spreads)])
+    dups = dups[:max(2, n13 // 6)]
+    ids = set(twins + spreads + dups + ids[:n13 - len(twins) - len(spreads)])
     with open(multi, "w") as f:
         for line in open(cases):
             if line.startswith('"CASE '):
